@@ -1,7 +1,7 @@
 (* C05 — branches, jumps, calls and returns obey the condition table and stack discipline. *)
 From Coq Require Import Bool ZArith List.
 From K Require Import Lib.Types Model.Machine Model.Alu Model.Exec Spec.ISA Proofs.FlagProofs.
-From K Require Import Model.Bus Spec.MemMap Proofs.RegProofs Proofs.StackProofs.
+From K Require Import Model.Bus Model.Cost Model.Addressing Spec.MemMap Proofs.RegProofs Proofs.StackProofs Proofs.MemProofs Proofs.CtlProofs.
 Open Scope Z_scope.
 
 (* the 16 x 256 condition table *)
@@ -27,5 +27,102 @@ Theorem call_rts_inverse :
          bus_read (cbus s2) x = bus_read (cbus s) x).
 Proof. exact call_rts_inverse_proof. Qed.
 
+(* ---- the model's handlers are the reference's state transformers followed by their charge, for every state ----
+   (s is the state after the first instruction word has been fetched: pc s is the address of the next word) *)
+Theorem bcc8_refines :
+  forall cc op s, 0 <= cc < 16 -> 0 <= ccr s < 256 ->
+    (cond_ref cc (ccr s) = true -> 0 <= pc s + sx 8 (lo8 op) < 4294967296 /\ (pc s + sx 8 (lo8 op)) mod 2 = 0) ->
+    run_tag (TBcc8 cc) op 0 0 s = cs KI 2 (with_pc (if cond_ref cc (ccr s) then pc s + sx 8 (lo8 op) else pc s) s).
+Proof. exact bcc8_refines_proof. Qed.
+
+Theorem bcc16_refines :
+  forall cc op d s,
+    0 <= cc < 16 -> 0 <= ccr s < 256 -> bus_bytes_ok s -> pc s mod 2 = 0 -> 0 <= pc s -> pc s + 2 < 4294967296 ->
+    mem_read SW s (pc s) = Some d ->
+    (cond_ref cc (ccr s) = true -> 0 <= pc s + 2 + sx 16 d < 4294967296 /\ (pc s + 2 + sx 16 d) mod 2 = 0) ->
+    run_tag (TBcc16 cc) op 0 0 s =
+    (i <- cs KI 2 ;; n <- cs KN 2 ;; ret (u8add i n))
+      (with_pc (if cond_ref cc (ccr s) then pc s + 2 + sx 16 d else pc s + 2) (set_opc (pc s) s)).
+Proof. exact bcc16_refines_proof. Qed.
+
+Theorem jmp_ern_refines :
+  forall op s, 0 <= nib op 3 < 8 -> run_tag TJmpErn op 0 0 s = cs KI 2 (with_pc (reg32 s (nib op 3) mod A24) s).
+Proof. exact jmp_ern_refines_proof. Qed.
+
+Theorem jmp_abs_refines :
+  forall op d s,
+    bus_bytes_ok s -> pc s mod 2 = 0 -> 0 <= pc s -> pc s + 2 < 4294967296 -> 0 <= lo8 op < 256 ->
+    mem_read SW s (pc s) = Some d ->
+    run_tag TJmpAbs op 0 0 s =
+    (i <- cs KI 2 ;; n <- cs KN 2 ;; ret (u8add i n)) (with_pc (lo8 op * 65536 + d) (set_opc (pc s) s)).
+Proof. exact jmp_abs_refines_proof. Qed.
+
+Theorem jmp_ind_refines :
+  forall op s, bus_bytes_ok s ->
+    run_tag TJmpInd op 0 0 s =
+    then_charge (option_map (fun v => with_pc (v mod A24) s) (mem_read SL s (lo8 op)))
+                (i <- cs KI 2 ;; j <- csa KJ 2 (lo8 op) ;; n <- cs KN 2 ;; ret (u8add (u8add i j) n)).
+Proof. exact jmp_ind_refines_proof. Qed.
+
+Theorem bsr8_refines :
+  forall op s, regs_ok s -> 0 <= pc s < 4294967296 ->
+    run_tag TBsr8 op 0 0 s =
+    then_charge (option_map (fun s1 => with_pc ((pc s + sx 8 (lo8 op)) mod 4294967296) s1) (push32 s (pc s)))
+                (i <- cs KI 2 ;; k <- csa KK 2 ((reg32 s 7 - 4) mod A24) ;; ret (u8add i k)).
+Proof. exact bsr8_refines_proof. Qed.
+
+Theorem bsr16_refines :
+  forall op d s,
+    regs_ok s -> bus_bytes_ok s -> pc s mod 2 = 0 -> 0 <= pc s -> pc s + 2 < 4294967296 ->
+    mem_read SW s (pc s) = Some d ->
+    run_tag TBsr16 op 0 0 s =
+    then_charge (option_map (fun s1 => with_pc ((pc s + 2 + sx 16 d) mod 4294967296) s1)
+                            (push32 (set_pc (pc s + 2) (set_opc (pc s) s)) (pc s + 2)))
+                (i <- cs KI 2 ;; k <- csa KK 2 ((reg32 s 7 - 4) mod A24) ;; n <- cs KN 2 ;; ret (u8add (u8add i k) n)).
+Proof. exact bsr16_refines_proof. Qed.
+
+Theorem jsr_ern_refines :
+  forall op s, regs_ok s -> 0 <= pc s < 4294967296 -> 0 <= nib op 3 < 8 ->
+    run_tag TJsrErn op 0 0 s =
+    then_charge (option_map (fun s1 => with_pc (reg32 s1 (nib op 3) mod A24) s1) (push32 s (pc s)))
+                (i <- cs KI 2 ;; k <- csa KK 2 ((reg32 s 7 - 4) mod A24) ;; ret (u8add i k)).
+Proof. exact jsr_ern_refines_proof. Qed.
+
+Theorem jsr_abs_refines :
+  forall op d s,
+    regs_ok s -> bus_bytes_ok s -> pc s mod 2 = 0 -> 0 <= pc s -> pc s + 2 < 4294967296 -> 0 <= lo8 op < 256 ->
+    mem_read SW s (pc s) = Some d ->
+    run_tag TJsrAbs op 0 0 s =
+    then_charge (option_map (fun s1 => with_pc (lo8 op * 65536 + d) s1)
+                            (push32 (set_pc (pc s + 2) (set_opc (pc s) s)) (pc s + 2)))
+                (i <- cs KI 2 ;; k <- csa KK 2 ((reg32 s 7 - 4) mod A24) ;; n <- cs KN 2 ;; ret (u8add (u8add i k) n)).
+Proof. exact jsr_abs_refines_proof. Qed.
+
+Theorem jsr_ind_refines :
+  forall op s, regs_ok s -> 0 <= pc s < 4294967296 ->
+    (forall s1, push32 s (pc s) = Some s1 -> bus_bytes_ok s1) ->
+    run_tag TJsrInd op 0 0 s =
+    then_charge (ISA.obind (push32 s (pc s)) (fun s1 => option_map (fun v => with_pc (v mod A24) s1) (mem_read SL s1 (lo8 op))))
+                (i <- cs KI 2 ;; j <- csa KJ 2 (lo8 op) ;; k <- csa KK 2 ((reg32 s 7 - 4) mod A24) ;; ret (u8add (u8add i j) k)).
+Proof. exact jsr_ind_refines_proof. Qed.
+
+Theorem rts_refines :
+  forall op s, bus_bytes_ok s ->
+    run_tag TRts op 0 0 s =
+    then_charge (option_map (fun '(v, s1) => with_pc (v mod A24) s1) (pop32 s))
+                (i <- cs KI 2 ;; k <- csa KK 2 (reg32 s 7 mod A24) ;; n <- cs KN 2 ;; ret (u8add (u8add i k) n)).
+Proof. exact rts_refines_proof. Qed.
+
 Print Assumptions cond_table.
 Print Assumptions call_rts_inverse.
+Print Assumptions bcc8_refines.
+Print Assumptions bcc16_refines.
+Print Assumptions jmp_ern_refines.
+Print Assumptions jmp_abs_refines.
+Print Assumptions jmp_ind_refines.
+Print Assumptions bsr8_refines.
+Print Assumptions bsr16_refines.
+Print Assumptions jsr_ern_refines.
+Print Assumptions jsr_abs_refines.
+Print Assumptions jsr_ind_refines.
+Print Assumptions rts_refines.
